@@ -71,7 +71,7 @@ func subsets(ks []*keys.PublicKey) [][]*keys.PublicKey {
 
 // allStubCtx enumerates every stub context over the universe (current in hashes, calling in 0+hashes,
 // every group subset for both, called-by-entry, ReadStates), skipping the combinations that no
-// contract table can produce (same contract with two different group sets; an entry script with a caller).
+// contract table can produce (the same contract with two different group sets).
 func allStubCtx(u *universe) []*stubCtx {
 	var res []*stubCtx
 	subs := subsets(u.keys)
